@@ -188,7 +188,7 @@ impl<'diff, 'old, 'new, 'bufs, T: DiffableStr + ?Sized> UnifiedDiff<'diff, 'old,
                 writeln!(w, "--- {}", old_file)?;
                 writeln!(w, "+++ {}", new_file)?;
             }
-            write!(w, "{}", hunk)?;
+            hunk.to_writer(&mut w)?;
         }
         Ok(())
     }
